@@ -100,3 +100,9 @@ Proofs/Unify.vos Proofs/Unify.vok Proofs/Unify.required_vos: Proofs/Unify.v Mode
 Props/C02.vo Props/C02.glob Props/C02.v.beautified Props/C02.required_vo: Props/C02.v Model/Term.vo Model/Unify.vo Proofs/Unify.vo
 Props/C02.vio: Props/C02.v Model/Term.vio Model/Unify.vio Proofs/Unify.vio
 Props/C02.vos Props/C02.vok Props/C02.required_vos: Props/C02.v Model/Term.vos Model/Unify.vos Proofs/Unify.vos
+Proofs/Order.vo Proofs/Order.glob Proofs/Order.v.beautified Proofs/Order.required_vo: Proofs/Order.v Model/Term.vo Model/Unify.vo Model/Order.vo
+Proofs/Order.vio: Proofs/Order.v Model/Term.vio Model/Unify.vio Model/Order.vio
+Proofs/Order.vos Proofs/Order.vok Proofs/Order.required_vos: Proofs/Order.v Model/Term.vos Model/Unify.vos Model/Order.vos
+Props/C08.vo Props/C08.glob Props/C08.v.beautified Props/C08.required_vo: Props/C08.v Model/Term.vo Model/Unify.vo Model/Order.vo Proofs/Order.vo
+Props/C08.vio: Props/C08.v Model/Term.vio Model/Unify.vio Model/Order.vio Proofs/Order.vio
+Props/C08.vos Props/C08.vok Props/C08.required_vos: Props/C08.v Model/Term.vos Model/Unify.vos Model/Order.vos Proofs/Order.vos
